@@ -159,6 +159,25 @@ def must_hold(cond_expr):
 
 # ---------------------------------------------------------------- exploration
 
+def _gen_args(sig, space):
+    """purely symbolic arguments.  (crosshair.core.gen_args goes through
+    make_concrete_or_symbolic, which -- depending on the statistics of earlier paths -- forks
+    into 'prematurely realized' values and then enumerates them one by one.)"""
+    args = sig.bind_partial()
+    for p in sig.parameters.values():
+        name = p.name + space.uniq()
+        if p.annotation is int:
+            v = SymbolicInt(name, int)
+        elif p.annotation is str:
+            v = LazyIntSymbolicStr(name, str)
+        elif p.annotation is bool:
+            v = SymbolicBool(name, bool)
+        else:
+            raise TypeError('unsupported symbolic parameter type %r' % (p.annotation,))
+        args.arguments[p.name] = v
+    return args
+
+
 class Exploration:
     def __init__(self):
         self.paths = 0            # completed paths (verdict reached)
@@ -210,7 +229,7 @@ def explore(fn, budget_s=60.0, per_path_s=20.0, max_paths=10**9, validate=None,
         with (condition_parser(options.analysis_kind), Patched(), COMPOSITE_TRACER,
               NoTracing(), StateSpaceContext(space)):
             try:
-                pre_args = gen_args(sig)
+                pre_args = _gen_args(sig, space)
                 args = deepcopyext(pre_args, CopyMode.REGULAR, {})
                 ret = None
                 with ExceptionFilter() as efilter, ResumedTracing():
